@@ -439,10 +439,22 @@ def run_fit(case, X, y, forced=None):
             return wrapped
         return out
 
+    def record_force(c, idx):
+        # the recording run uses the real samplers, except Bingham: its rejection sampler can take minutes when
+        # epsilon x eigen-gap is large; any unit vector is a possible output, so a scheduled one is replayed instead
+        if c.cls == "Bingham":
+            d = c.value.shape[0]
+            if d == 1:
+                return np.ones((1, 1))
+            rr = gen.SplitMix64(case["seed"] * 31 + idx)
+            v = np.array([rr.normal() for _ in range(d)])
+            return v / np.linalg.norm(v)
+        return seams.interpose.REAL
+
     mismatch = None
     with warnings.catch_warnings():
         warnings.simplefilter("ignore")
-        with probing() as pr, seams.interpose(force=force if forced is not None else None) as calls:
+        with probing() as pr, seams.interpose(force=force if forced is not None else record_force) as calls:
             try:
                 model.fit(*fit_args(case, X, y))
             except Mismatch as e:
